@@ -17,7 +17,9 @@ type queue[T any] struct {
 	mu     sync.Mutex
 	items  []T
 	err    error
-	notify chan struct{}
+	// softErr is a terminal error reported after the queued items were taken
+	softErr error
+	notify  chan struct{}
 	// gets counts completed + started receive calls
 	recvCalls int
 }
@@ -32,7 +34,7 @@ func (q *queue[T]) wake() {
 func (q *queue[T]) put(v T) bool {
 	q.mu.Lock()
 	defer q.mu.Unlock()
-	if q.err != nil {
+	if q.err != nil || q.softErr != nil {
 		return false
 	}
 	q.items = append(q.items, v)
@@ -44,6 +46,16 @@ func (q *queue[T]) fail(err error) {
 	q.mu.Lock()
 	if q.err == nil {
 		q.err = err
+		q.wake()
+	}
+	q.mu.Unlock()
+}
+
+// failSoft sets a terminal error that is reported only once the queue is drained.
+func (q *queue[T]) failSoft(err error) {
+	q.mu.Lock()
+	if q.err == nil && q.softErr == nil {
+		q.softErr = err
 		q.wake()
 	}
 	q.mu.Unlock()
@@ -70,6 +82,11 @@ func (q *queue[T]) get(ctx context.Context) (T, error) {
 			q.items = q.items[1:]
 			q.mu.Unlock()
 			return v, nil
+		}
+		if q.softErr != nil {
+			err := q.softErr
+			q.mu.Unlock()
+			return zero, err
 		}
 		if q.notify == nil {
 			q.notify = make(chan struct{})
@@ -104,13 +121,127 @@ type CStream struct {
 	initSeen bool
 	target   string
 	nReq     int
+	endCh    chan struct{} // closed when the stream ends (either side)
+	ended    bool
+	sendErr  error // what Send returns after the harness ended the stream (nil: ErrKilled)
+	swallow  bool  // half-closed by the remote: Send succeeds, the request goes nowhere
+	// failInFlight: the write during which the stream ended fails too
+	failInFlight bool
+	gates    []*wgate
+}
+
+// wgate is a one-shot write gate: the next client request of the given kind
+// parks inside Send (the client's writer is blocked on a slow link) until the
+// harness releases it.
+type wgate struct {
+	kind   string // send | ack | clear | any
+	after  bool   // park after the request was handed to the relay (else before)
+	taken  bool
+	parked bool
+	ch     chan struct{}
+	rec    ReqRec // the request that took the gate
 }
 
 // NewCStream makes a client stream bound to ctx.
 func NewCStream(ctx context.Context, id int) *CStream {
-	s := &CStream{ID: id}
+	s := &CStream{ID: id, endCh: make(chan struct{})}
 	s.ctx, s.cancel = context.WithCancel(ctx)
 	return s
+}
+
+// endL marks the stream as ended (lock held).
+func (s *CStream) endL() {
+	if !s.ended {
+		s.ended = true
+		close(s.endCh)
+	}
+}
+
+// StallWrite arms a one-shot write gate: the next request of kind (send | ack
+// | clear | any; never the Init) blocks the client's writer inside Send, before
+// the relay sees it (after=false) or after the relay has handled it but before
+// Send returns (after=true), until ReleaseWrites. A parked writer sits in a
+// select, i.e. counts as quiescent.
+func (s *CStream) StallWrite(kind string, after bool) {
+	Ev()
+	s.mu.Lock()
+	s.gates = append(s.gates, &wgate{kind: kind, after: after, ch: make(chan struct{})})
+	s.mu.Unlock()
+}
+
+// ReleaseWrites opens every write gate of the stream. Returns the number of
+// writers that were parked in one.
+func (s *CStream) ReleaseWrites() int {
+	Ev()
+	s.mu.Lock()
+	n := 0
+	for _, g := range s.gates {
+		if g.parked {
+			n++
+		}
+		close(g.ch)
+	}
+	s.gates = nil
+	s.mu.Unlock()
+	return n
+}
+
+// WritersParked is the number of client writers currently parked in a gate.
+func (s *CStream) WritersParked() int {
+	s.mu.Lock()
+	defer s.mu.Unlock()
+	n := 0
+	for _, g := range s.gates {
+		if g.parked {
+			n++
+		}
+	}
+	return n
+}
+
+// ParkedBefore returns the requests whose write is parked BEFORE the relay saw
+// them (in flight on the slow link: the client regards them as transmitted).
+func (s *CStream) ParkedBefore() []ReqRec {
+	s.mu.Lock()
+	defer s.mu.Unlock()
+	var out []ReqRec
+	for _, g := range s.gates {
+		if g.parked && !g.after {
+			out = append(out, g.rec)
+		}
+	}
+	return out
+}
+
+// takeGateL returns the first armed gate matching kind (lock held).
+func (s *CStream) takeGateL(kind string) *wgate {
+	if kind == "init" {
+		return nil
+	}
+	for _, g := range s.gates {
+		if !g.taken && (g.kind == "any" || g.kind == kind) {
+			g.taken = true
+			return g
+		}
+	}
+	return nil
+}
+
+// park blocks in gate g until it is released or the stream ends.
+func (s *CStream) park(g *wgate) {
+	s.mu.Lock()
+	g.parked = true
+	s.mu.Unlock()
+	Ev()
+	select {
+	case <-g.ch:
+	case <-s.endCh:
+	case <-s.ctx.Done():
+	}
+	s.mu.Lock()
+	g.parked = false
+	s.mu.Unlock()
+	Ev()
 }
 
 // Push queues a response for the client. Returns false if the stream is dead.
@@ -124,8 +255,50 @@ func (s *CStream) Kill(err error) {
 	Ev()
 	s.mu.Lock()
 	s.dead = true
+	s.endL()
 	s.mu.Unlock()
 	s.in.fail(err)
+}
+
+// EndShape describes how a stream ends from the client's point of view.
+type EndShape struct {
+	Name string
+	// RecvErr is what the client's Recv returns (io.EOF = the remote ended the
+	// call without an error).
+	RecvErr error
+	// Drain: responses already queued are still handed out before RecvErr (a
+	// graceful end); otherwise they are lost with the stream.
+	Drain bool
+	// SendErr is what later Sends return; nil with Swallow = the remote only
+	// closed ITS direction (half-close): the client can still write, nobody reads.
+	SendErr error
+	Swallow bool
+	// CancelCtx: the stream's context ends with the stream (as for an rpc whose
+	// transport went away).
+	CancelCtx bool
+	// FailInFlight: a Send that is in progress when the stream ends (the end is
+	// injected from inside that write) returns SendErr instead of succeeding.
+	FailInFlight bool
+}
+
+// End ends the stream in the given shape.
+func (s *CStream) End(sh EndShape) {
+	Ev()
+	s.mu.Lock()
+	s.dead = true
+	s.sendErr = sh.SendErr
+	s.swallow = sh.Swallow && sh.SendErr == nil
+	s.failInFlight = sh.FailInFlight && !s.swallow
+	s.endL()
+	s.mu.Unlock()
+	if sh.Drain {
+		s.in.failSoft(sh.RecvErr)
+	} else {
+		s.in.fail(sh.RecvErr)
+	}
+	if sh.CancelCtx {
+		s.cancel()
+	}
 }
 
 // Alive reports that neither side ended the stream.
@@ -152,8 +325,15 @@ func (s *CStream) Send(req *signaling_rpc.SessionRequest) error {
 	Ev()
 	s.mu.Lock()
 	if s.closed || s.dead {
+		err, sw := s.sendErr, s.swallow && !s.closed
 		s.mu.Unlock()
-		return ErrKilled
+		if sw {
+			return nil
+		}
+		if err == nil {
+			err = ErrKilled
+		}
+		return err
 	}
 	s.nReq++
 	if in, ok := req.GetBody().(*signaling_rpc.SessionRequest_Init); ok && !s.initSeen {
@@ -161,11 +341,50 @@ func (s *CStream) Send(req *signaling_rpc.SessionRequest) error {
 		s.target = in.Init.GetPeerId()
 	}
 	h := s.OnSend
-	s.mu.Unlock()
-	if h != nil {
-		return h(s, req)
+	rec := Classify(s.ID, req)
+	g := s.takeGateL(rec.Kind)
+	if g != nil {
+		g.rec = rec
 	}
-	return nil
+	s.mu.Unlock()
+	if g != nil && !g.after {
+		s.park(g)
+		if !s.Alive() {
+			// the stream ended while the write was blocked: the request is lost
+			return s.deadSendErr()
+		}
+	}
+	var err error
+	if h != nil {
+		err = h(s, req)
+	}
+	if g != nil && g.after {
+		s.park(g)
+	}
+	if err == nil {
+		s.mu.Lock()
+		if s.dead && s.failInFlight {
+			err = s.sendErr
+			if err == nil {
+				err = ErrKilled
+			}
+		}
+		s.mu.Unlock()
+	}
+	return err
+}
+
+// deadSendErr is what a Send on an ended stream returns.
+func (s *CStream) deadSendErr() error {
+	s.mu.Lock()
+	defer s.mu.Unlock()
+	if s.swallow && !s.closed {
+		return nil
+	}
+	if s.sendErr != nil {
+		return s.sendErr
+	}
+	return ErrKilled
 }
 
 // Recv implements SRPCSignaling_SessionClient.
@@ -215,6 +434,7 @@ func (s *CStream) Close() error {
 	s.mu.Lock()
 	was := s.closed
 	s.closed = true
+	s.endL()
 	h := s.OnClose
 	s.mu.Unlock()
 	s.cancel()
